@@ -21,4 +21,15 @@ def main():
     u2, _ = vcgen.houdini(lambda act: vcgen.Unit(fs[0], c2, cast.global_constants(), {}, act))
     canary = any(vcgen.solve(o) == "refuted" for o in u2.ev.obls)
     print("selftest: proves=%s canary_refuted=%s" % (ok, canary))
-    return 0 if ok and canary else 3
+    if not (ok and canary):
+        return 3
+    if "--quick" in sys.argv:
+        # Engine N: the native driver builds from the working tree, answers, and a wrong expectation is reported
+        from .nat import run as nrun, engine as neng
+        res = nrun.run_cases(["a reduce sum 0 0 0 np int64 3 1 2 3", "b tolist lo 64 3 0 2 2 np int64 2 5 6"])
+        good = res["a"].status == "OK" and res["a"].value == 6 and res["b"].value == [[5, 6], []]
+        bad = neng.expect_value(7, "canary")(res["a"])
+        print("selftest: native driver answers=%s wrong-expectation-reported=%s" % (good, bad is not None))
+        if not (good and bad is not None):
+            return 3
+    return 0
